@@ -140,6 +140,8 @@ type walfExpect struct {
 	Alts       []*walfSnap         // other states a failed call may have left for the next Open
 	PendHead   uint64              // a failed head truncation asked for this first index: it may still
 	//                                show after the next Open, whatever was appended in between
+	PendHeads  []uint64            // all such first indices since the last Open (a later failed head
+	//                                truncation does not undo an earlier one that reached the disk)
 	Stable     map[string]string   // key -> value (hex), "" = never set
 	StableAlts map[string][]string // values a failed Set may have left
 	NextGen    int
@@ -287,7 +289,7 @@ func (c *walfChild) classify(when string, obs, ref *walfSnap, alts []*walfSnap) 
 		detail += fmt.Sprintf(", or (failed call %d applied/not applied) %s", i, a)
 	}
 	if c.e.PendHead != 0 {
-		detail += fmt.Sprintf(", each possibly with first index %d (failed head truncation)", c.e.PendHead)
+		detail += fmt.Sprintf(", each possibly with first index %d (failed head truncation)", c.e.PendHeads)
 	}
 	if ref.First != 0 {
 		for i := ref.First; i <= ref.Last; i++ {
@@ -328,14 +330,16 @@ func (c *walfChild) adoptAfterOpen(when string) {
 	match := false
 	for _, a := range append([]*walfSnap{c.e.Ref}, c.e.Alts...) {
 		match = match || obs.equal(a)
-		if ph := c.e.PendHead; ph > a.First && ph <= a.Last && a.First != 0 {
-			match = match || obs.equal(a.afterDelete(a.First, ph-1))
+		for _, ph := range c.e.PendHeads {
+			if ph > a.First && ph <= a.Last && a.First != 0 {
+				match = match || obs.equal(a.afterDelete(a.First, ph-1))
+			}
 		}
 	}
 	if !match {
 		c.classify(when, obs, c.e.Ref, c.e.Alts)
 	}
-	c.e.Ref, c.e.Alts, c.e.PendHead = obs, nil, 0
+	c.e.Ref, c.e.Alts, c.e.PendHead, c.e.PendHeads = obs, nil, 0, nil
 	for k, want := range c.e.Stable {
 		kb, _ := hexDecode(k)
 		got, err := c.w.Get(kb)
@@ -485,6 +489,13 @@ func walfChildMain(dir string, seg int, ops []string) (rc int) {
 					if e.PendHead <= hi+1 {
 						e.PendHead = 0
 					}
+					var keep []uint64
+					for _, ph := range e.PendHeads {
+						if ph > hi+1 {
+							keep = append(keep, ph)
+						}
+					}
+					e.PendHeads = keep
 				} else {
 					e.Alts = nil
 				}
@@ -503,6 +514,7 @@ func walfChildMain(dir string, seg int, ops []string) (rc int) {
 						if hi+1 > e.PendHead {
 							e.PendHead = hi + 1
 						}
+						e.PendHeads = append(e.PendHeads, hi+1)
 					} else {
 						e.Alts = append(e.Alts, applied)
 					}
